@@ -26,6 +26,32 @@ def run(cmd, timeout=600, cwd=None, env=None, stdin=None):
         return 124, e.stdout or b'', e.stderr or b''
 
 
+# The environment a command runs in is part of "every input": each overlay is (name, environment variables, limit on
+# open files or None).  The commands must behave as in the default environment under every one of them.
+ENV_MATRIX = [('NO_COLOR', dict(NO_COLOR='1'), None), ('TERM=dumb', dict(TERM='dumb', CLICOLOR='0'), None), ('FORCE_COLOR', dict(CLICOLOR_FORCE='1', FORCE_COLOR='1'), None),
+              ('GOMAXPROCS=1', dict(GOMAXPROCS='1'), None), ('GOMAXPROCS=2', dict(GOMAXPROCS='2'), None), ('GOMAXPROCS=64', dict(GOMAXPROCS='64'), None),
+              ('C locale', dict(LANG='C', LC_ALL='C'), None), ('tr_TR locale', dict(LANG='tr_TR.UTF-8', LC_ALL='tr_TR.UTF-8'), None),
+              ('no HOME, no TMPDIR', dict(HOME='/nonexistent', TMPDIR='/nonexistent', XDG_CONFIG_HOME='/nonexistent'), None),
+              ('64 open files', {}, 64), ('CI variables', dict(CI='true', GITHUB_ACTIONS='true', GITHUB_WORKSPACE='/nonexistent-workspace'), None),
+              ('verbose debug variables', dict(DEBUG='1', VERBOSE='1', GODEBUG='gctrace=0'), None)]
+
+
+def run_env(cmd, overlay, timeout=600, cwd=None, base=None):
+    """run under one entry of ENV_MATRIX -> (rc, stdout, stderr)"""
+    name, env_, nofile = overlay
+    e = dict(base or ENV)
+    e.update(env_)
+    pre = None
+    if nofile:
+        import resource
+        pre = lambda: resource.setrlimit(resource.RLIMIT_NOFILE, (nofile, nofile))
+    try:
+        p = subprocess.run(cmd, cwd=cwd, env=e, capture_output=True, timeout=timeout, preexec_fn=pre)
+        return p.returncode, p.stdout, p.stderr
+    except subprocess.TimeoutExpired as ex:
+        return 124, ex.stdout or b'', ex.stderr or b''
+
+
 def build():
     """bin/build (flock'd, incremental) -> status dict name -> rc"""
     if os.environ.get('VERIF_SKIP_BUILD') == '1' and os.path.exists(B + '/build.status'):   # development only
